@@ -195,6 +195,7 @@ type env struct {
 	loopIx   types.Object              // index variable of the enclosing counted loop
 	alias    map[types.Object]ast.Expr // decode helpers: `raw := b.ReadX(n)` used once in the returned expression
 	inHelper bool                      // translating the body of an inlined library function
+	copies   []string                  // field-path prefixes a by-value parameter / receiver stands for: assignments through them are lost
 	parent   *env                      // tables: the environment of the caller whose values the parameters stand for
 }
 
@@ -447,13 +448,28 @@ func constInt(e *env, x ast.Expr) (int64, bool) {
 	return 0, false
 }
 
+// lostWrites: does any of the operations assign a field through a by-value copy (the real code would lose it)?
+func lostWrites(ne *env, ops []string, enc bool) bool {
+	for _, c := range ne.copies {
+		for _, o := range ops {
+			if enc && !strings.HasPrefix(o, ".assign") {
+				continue // writing a copy's fields to the wire is fine
+			}
+			if c == "" || strings.Contains(o, "\""+c+".") || strings.Contains(o, "\""+c+"\"") {
+				return true
+			}
+		}
+	}
+	return false
+}
+
 // bindCall prepares the environment for inlining a call to a library function whose body is
 // available: every parameter is bound to what the argument denotes in the caller — the writer, the
 // reader, (part of) the PDU value (`p.Header`, `&p.Header`, `p`), an integer expression, or the raw
 // input slice.  ok=false if some argument is none of these.
 func (w *world) bindCall(e *env, c *ast.CallExpr) (*ast.FuncDecl, *env, bool) {
 	fn, recv := w.callee(e, c)
-	if fn == nil || recv != nil || fn.Pkg() == nil || !strings.HasPrefix(fn.Pkg().Path(), modPath) {
+	if fn == nil || fn.Pkg() == nil || !strings.HasPrefix(fn.Pkg().Path(), modPath) {
 		return nil, nil, false
 	}
 	fd := w.funcs[fn]
@@ -462,6 +478,24 @@ func (w *world) bindCall(e *env, c *ast.CallExpr) (*ast.FuncDecl, *env, bool) {
 	}
 	finfo := w.infoOf[fd]
 	ne := &env{info: finfo, paths: map[types.Object]string{}, locals: map[types.Object]string{}, bytesL: map[types.Object]string{}, inHelper: true}
+	if recv != nil {
+		// p.writeBody(b) / p.Header.write(b): a method of (part of) the PDU value; the receiver stands for that part
+		rp, ok := w.fieldPath(e, recv)
+		if !ok || fd.Recv == nil || len(fd.Recv.List) != 1 || len(fd.Recv.List[0].Names) != 1 {
+			return nil, nil, false
+		}
+		if sel, isSel := unparen(c.Fun).(*ast.SelectorExpr); !isSel || e.info.Selections[sel] == nil || e.info.Selections[sel].Kind() != types.MethodVal {
+			return nil, nil, false
+		}
+		if _, isIface := e.info.TypeOf(recv).Underlying().(*types.Interface); isIface {
+			return nil, nil, false
+		}
+		ro := finfo.ObjectOf(fd.Recv.List[0].Names[0])
+		ne.paths[ro] = rp
+		if _, isPtr := ro.Type().Underlying().(*types.Pointer); !isPtr {
+			ne.copies = append(ne.copies, rp)
+		}
+	}
 	idx := 0
 	for _, pf := range fd.Type.Params.List {
 		for _, nm := range pf.Names {
@@ -482,6 +516,9 @@ func (w *world) bindCall(e *env, c *ast.CallExpr) (*ast.FuncDecl, *env, bool) {
 			default:
 				if p, ok := w.fieldPath(e, arg); ok {
 					ne.paths[obj] = p
+					if _, isStruct := obj.Type().Underlying().(*types.Struct); isStruct {
+						ne.copies = append(ne.copies, p) // passed by value
+					}
 				} else if x, ok := w.intExpr(e, arg); ok {
 					ne.locals[obj] = x
 				} else if id, ok := arg.(*ast.Ident); ok && isByteSlice(e.info.TypeOf(id)) {
@@ -891,8 +928,12 @@ func (w *world) encStmt(e *env, s ast.Stmt, out *encOut) {
 			}
 			// pkg.WriteHeaderNoLength(p.Header, b), writeCommon(b, p) …: any library function that receives the writer is inlined
 			if fd, ne, ok := w.bindCall(e, c); ok && ne.writer != nil {
-				w.encStmts(ne, fd.Body.List, out)
-				return
+				var tmp encOut
+				w.encStmts(ne, fd.Body.List, &tmp)
+				if !lostWrites(ne, tmp.ops, true) && tmp.fin == "" {
+					out.ops = append(out.ops, tmp.ops...)
+					return
+				}
 			}
 		}
 	case *ast.RangeStmt:
@@ -1291,7 +1332,7 @@ func (w *world) resultCallP(e *env, paths []string, ltypes []types.Type, c *ast.
 	}
 	var tmp decOut
 	w.decStmts(ne, fd.Body.List[:len(fd.Body.List)-1], &tmp)
-	if tmp.ret != "" || tmp.readerErrReturned || len(tmp.ops) == 0 {
+	if tmp.ret != "" || tmp.readerErrReturned || len(tmp.ops) == 0 || lostWrites(ne, tmp.ops, false) {
 		return false
 	}
 	for _, o := range tmp.ops {
@@ -1663,8 +1704,14 @@ func (w *world) decStmt(e *env, s ast.Stmt, out *decOut) {
 				// return decodeHeaderOnly(data, &p.Header): a helper that does the rest of the decoding with its own reader
 				if e.reader == nil {
 					if fd, ne, ok := w.bindCall(e, c); ok {
-						w.decStmts(ne, fd.Body.List, out)
-						return
+						var tmp decOut
+						w.decStmts(ne, fd.Body.List, &tmp)
+						if !lostWrites(ne, tmp.ops, false) {
+							out.ops = append(out.ops, tmp.ops...)
+							out.ret = tmp.ret
+							out.readerErrReturned = out.readerErrReturned || tmp.readerErrReturned
+							return
+						}
 					}
 				}
 			}
@@ -1673,8 +1720,13 @@ func (w *world) decStmt(e *env, s ast.Stmt, out *decOut) {
 		// readCommon(b, p): a library function that receives the reader is inlined (it must not return anything that is dropped here)
 		if c, ok := st.X.(*ast.CallExpr); ok && e.reader != nil {
 			if fd, ne, ok := w.bindCall(e, c); ok && ne.reader != nil && (fd.Type.Results == nil || len(fd.Type.Results.List) == 0) {
-				w.decStmts(ne, fd.Body.List, out)
-				return
+				var tmp decOut
+				w.decStmts(ne, fd.Body.List, &tmp)
+				if !lostWrites(ne, tmp.ops, false) && tmp.ret == "" {
+					out.ops = append(out.ops, tmp.ops...)
+					out.readerErrReturned = out.readerErrReturned || tmp.readerErrReturned
+					return
+				}
 			}
 		}
 	}
